@@ -383,7 +383,7 @@ def recovery_sweep(v, ex, s, tier):
 def run(tier, v):
     ex = fsx.Explorer()
     if tier == "thorough":
-        s = Search(v, ex, max_files=3, max_stmts=5, depth=6, max_faulty=2, wall_cap=int(__import__("os").environ.get("VERIF_C02_CAP_S", "1200")))
+        s = Search(v, ex, max_files=3, max_stmts=5, depth=6, max_faulty=2, wall_cap=int(__import__("os").environ.get("VERIF_C02_CAP_S", "3600")))
     else:
         s = Search(v, ex, max_files=2, max_stmts=3, depth=4, max_faulty=1)
     # roots: produced by the real tool from ID-free trees, so every ID in them was genuinely written by Breadlog
